@@ -11,7 +11,7 @@ import (
 func init() {
 	register(&Prop{
 		ID: "C15",
-		Decided: "isolation and lifecycle only: (1) the partition key encoder of the MATCH_RECOGNIZE runner is typed and length-prefixed (uniquely decodable); (2) all partition state of cep.Engine (partMap, lru, seq) is accessed only under e.mu, the sweeper included; (3) per-partition state is reached only through getPartition(key): partMap is read/written only by getPartition and evictIfNeeded, and Process steps exactly the partition it looked up with the key it was given; (4) partitions are evicted only when lru.Len() > maxPart and the evicted one is lru.Back(); (5) Stop order: waitLifecycle -> cep.Stop -> engine.Flush -> synchronous flush delivery, flush rows projected like live matches (shared with C18); (6) the live path feeds the engine only rows that passed JOIN enrichment and WHERE, with the runner's own partition key.",
+		Decided: "isolation and lifecycle only: (1) the partition key encoder of the MATCH_RECOGNIZE runner is typed and length-prefixed (uniquely decodable); (2) all partition state of cep.Engine (partMap, lru, seq) is accessed only under e.mu, the sweeper included; (3) per-partition state is reached only through getPartition(key): partMap is read/written only by getPartition and evictIfNeeded, and Process steps exactly the partition it looked up with the key it was given; (4) partitions are evicted only when lru.Len() > maxPart and the evicted one is lru.Back(); (5) Stop order: waitLifecycle -> cep.Stop -> engine.Flush -> synchronous flush delivery, flush rows projected like live matches (shared with C18); (5b) the scratch map that DEFINE/MEASURES evaluation takes from the process-wide pool is emptied before its first write (or before every exit), so no row's fields leak into the evaluation of another row, partition or instance; (6) the live path feeds the engine only rows that passed JOIN enrichment and WHERE, with the runner's own partition key.",
 		NotDecided: "everything about which matches are reported: NFA construction, greedy/reluctant choice, SKIP modes, WITHIN, MEASURES, MATCH_NUMBER — match semantics are value-level.",
 		Run: runC15,
 	})
@@ -99,6 +99,17 @@ func runC15(a *A) {
 			},
 			func(r map[string]int, _ map[string]bool) bool { return r["len"] > r["cap"] })
 		a.Check(back, fname(fn)+"#evicts-oldest", first.Pos(), "the evicted partition is lru.Back()", "the evicted partition is not the least recently used one")
+	})
+	a.Rule("flow/pooled-map-cleared", 1, func() {
+		n := 0
+		for _, fn := range a.ModFuncs {
+			if fn.Pkg != nil && fn.Pkg.Pkg.Path() == modPath+"/cep" {
+				n += a.rulePooledMapCleared(fn)
+			}
+		}
+		if n == 0 {
+			a.Ok("cep#pooled-map-cleared", token.NoPos, "package cep takes no map from a sync.Pool").Trivial = true
+		}
 	})
 	a.Rule("flow/live-path", 3, func() {
 		fn := a.Method("stream", "DataProcessor", "processCEP")
